@@ -3,6 +3,7 @@ import numpy as np
 import common
 from common import show_floats, show_ints
 import tprog, gen_dag
+tprog.DTYPE_KW = True
 tprog.ENTRIES = True        # function / Tensor method / operator / augmented operator statement, varying from call to call
 
 PROP = 'C07'
